@@ -67,7 +67,11 @@ func c08Case(entryKinds []string, bodyKind string) *Case {
 			inlines = append(inlines, &inlineScript{name: func() interp.Value { return cat(mname.Val, "_", ty.Val) }, body: e.Body})
 		case strings.HasPrefix(k, "table:"):
 			e.Kind = "table"
-			for i, rk := range strings.Split(strings.TrimPrefix(k, "table:"), ",") {
+			rowKinds := strings.Split(strings.TrimPrefix(k, "table:"), ",")
+			if k == "table:" {
+				rowKinds = nil // a table without rows
+			}
+			for i, rk := range rowKinds {
 				r := &MapRow{Cond: []Tok{A(atoms.New(ClsIdent, "cond", ""))}, Value: []Tok{A(atoms.New(ClsNum, "val", ""))}}
 				if rk == "p" {
 					r.Label = atoms.New(ClsIdent, "target", "")
@@ -356,6 +360,10 @@ func RunC08(env *Env, rep *Report) {
 		cases = append(cases, c08Case(l, bodies[i%len(bodies)]))
 	}
 	cases = append(cases, c08TargetsInFileCase())
+	// tables without rows (label, then just the terminator)
+	for i, l := range [][]string{{"table:"}, {"plain", "table:"}, {"table:", "inline"}, {"table:", "table:i"}, {"table:p", "table:"}} {
+		cases = append(cases, c08Case(l, bodies[i%len(bodies)]))
+	}
 	for _, b := range bodies {
 		cases = append(cases, c08Case([]string{"inline", "table:i,p", "inline"}, b), c08Case([]string{"table:i,i", "table:p,i"}, b))
 	}
